@@ -103,6 +103,8 @@ func wireGen(rng *rand.Rand, n int, emit func(string)) {
 		h = 5
 	}
 	wireGenReloads(rng, h, emit)
+	// the configuration as written by the operator: loader level (every type x plugin x flag) and wire level (rigs)
+	wireGenConfig(rng, n, emit)
 	// token setters
 	for i := 0; i < n; i++ {
 		tok := ""
@@ -164,7 +166,31 @@ func wireGen(rng *rand.Rand, n int, emit func(string)) {
 			wireBit(rng.Intn(4) != 0), rng.Intn(2), rng.Intn(3), sa[0], rng.Intn(3), pick(rng, []string{"tcp", "ws", "quic"}),
 			rng.Intn(len(wireSanDNS)), rng.Intn(len(wireSanIP)), sa[1]))
 	}
-	// wss (frps does not terminate it: never a session) and kcp (no close signalling: a refusal is a
+	// wss the way it is deployed: a TLS terminator in front of frps presents the certificate (issuer CA1 / CA2 x DNS
+	// SAN kind x IP SAN kind).  The identity sub-lattice of a client with a trusted CA — every kind of server name,
+	// given or defaulted — with transport.tls.enable on AND off (wss is TLS whatever that switch says), plus generated
+	// samples for clients without a CA / with another CA, forcing servers, wrong keys
+	for en := 0; en < 2; en++ {
+		for d := range wireSanDNS {
+			for ip := range wireSanIP {
+				for _, sa := range snAddr {
+					tca := 1
+					if rng.Intn(4) == 0 {
+						tca = 2
+					}
+					emit(fmt.Sprintf("cert force=0 sca=0 scert=%d tls=%d custom=%d cca=1 sn=%d ccert=%d proto=wss tok=%d addr=%d term=%d%d%d",
+						rng.Intn(2), en, rng.Intn(2), sa[0], rng.Intn(3), wireBit(rng.Intn(8) != 0), sa[1], tca, d, ip))
+				}
+			}
+		}
+	}
+	for i := 0; i < 80; i++ {
+		sa := snAddr[rng.Intn(len(snAddr))]
+		emit(fmt.Sprintf("cert force=%d sca=%d scert=1 tls=%d custom=%d cca=%d sn=%d ccert=%d proto=wss tok=%d addr=%d term=%d%d%d",
+			wireBit(rng.Intn(5) == 0), wireBit(rng.Intn(8) == 0), rng.Intn(2), rng.Intn(2), rng.Intn(3), sa[0], rng.Intn(3),
+			wireBit(rng.Intn(6) != 0), sa[1], 1+rng.Intn(2), rng.Intn(len(wireSanDNS)), rng.Intn(len(wireSanIP))))
+	}
+	// wss straight to frps (frps does not terminate it: never a session) and kcp (no close signalling: a refusal is a
 	// time-out of the peer, so only a few cases, mostly TLS ones) — generated samples of the same lattice
 	for i := 0; i < 48; i++ {
 		emit(certOp("wss", rng.Intn(8), rng.Intn(108), rng.Intn(2)))
@@ -576,6 +602,9 @@ func wireStartServerSan(force, ca bool, san string, mux bool, token string, vhos
 	pki := wireGetPKI()
 	var lastErr error
 	for try := 0; try < 5; try++ {
+		if try > 0 && vhostHTTP != 0 {
+			vhostHTTP = freeTCPPort() // the port may have been taken by another process in the meantime
+		}
 		scfg := &v1.ServerConfig{}
 		scfg.BindAddr = "127.0.0.1"
 		scfg.BindPort = freeTCPPort()
@@ -724,6 +753,17 @@ func wireCert(kv map[string]string) string {
 		ccfg.Transport.Protocol = "websocket"
 	case "wss":
 		ccfg.Transport.Protocol = "wss"
+		if t, ok := kv["term"]; ok {
+			// a TLS terminator in front of frps (the deployment wss exists for): it presents the certificate
+			// <issuer><d><i> and hands the decrypted websocket stream to the plain port of the real frps
+			peer, ok := pki.peers[t]
+			if !ok {
+				return "badterm"
+			}
+			term := wireNewTerminator(peer, s.port)
+			defer term.close()
+			ccfg.ServerPort = term.port()
+		}
 	case "kcp":
 		// kcp has no close signalling: a connection frps refuses and closes just stays silent
 		ccfg.Transport.Protocol = "kcp"
@@ -773,6 +813,63 @@ func wireCert(kv map[string]string) string {
 		return "up=0:loginerr"
 	}
 	return "up=1"
+}
+
+// ---------------------------------------------------------------- TLS terminator (wss)
+
+type wireTerminator struct {
+	ln    net.Listener
+	mu    sync.Mutex
+	conns []net.Conn
+}
+
+func wireNewTerminator(cert tls.Certificate, target int) *wireTerminator {
+	ln, err := tls.Listen("tcp", "127.0.0.1:0", &tls.Config{Certificates: []tls.Certificate{cert}})
+	if err != nil {
+		panic(err)
+	}
+	t := &wireTerminator{ln: ln}
+	go func() {
+		for {
+			c, err := ln.Accept()
+			if err != nil {
+				return
+			}
+			go func(c net.Conn) {
+				tc := c.(*tls.Conn)
+				_ = tc.SetDeadline(time.Now().Add(3 * time.Second))
+				if tc.Handshake() != nil {
+					c.Close()
+					return
+				}
+				_ = tc.SetDeadline(time.Time{})
+				u, err := net.DialTimeout("tcp", net.JoinHostPort("127.0.0.1", strconv.Itoa(target)), 2*time.Second)
+				if err != nil {
+					c.Close()
+					return
+				}
+				t.mu.Lock()
+				t.conns = append(t.conns, c, u)
+				t.mu.Unlock()
+				go func() { _, _ = io.Copy(u, c); u.Close(); c.Close() }()
+				_, _ = io.Copy(c, u)
+				c.Close()
+				u.Close()
+			}(c)
+		}
+	}()
+	return t
+}
+
+func (t *wireTerminator) port() int { return t.ln.Addr().(*net.TCPAddr).Port }
+
+func (t *wireTerminator) close() {
+	t.ln.Close()
+	t.mu.Lock()
+	for _, c := range t.conns {
+		c.Close()
+	}
+	t.mu.Unlock()
 }
 
 // ---------------------------------------------------------------- recording relay
@@ -1258,11 +1355,27 @@ wait:
 
 // ---------------------------------------------------------------- dispatch
 
+var wireLogOnce sync.Once
+
 func wireExec(tok []string) string {
+	// frp's console logger writes to the stream the runner reads the trace from: error lines of a frpc / frps that is
+	// being shut down (rigs) must not end up between two trace lines
+	wireLogOnce.Do(func() {
+		if os.Getenv("C05_LOG") == "" {
+			frplog.InitLogger(os.DevNull, "error", 0, true)
+		}
+	})
 	switch tok[0] {
 	case "reset":
 		wireRClose()
+		wcClose()
 		return "-"
+	case "cfgload":
+		return wireCfgLoad(wireKV(tok))
+	case "wstart":
+		return wireCStart(wireKV(tok))
+	case "wobs":
+		return wireCObs(wireKV(tok))
 	case "sniff":
 		return wireSniff(atoi(tok[1]), tok[2] == "1")
 	case "srvcfg":
